@@ -35,6 +35,9 @@ type c06Route struct {
 	Path    string  `json:"path"`
 	Filters []FSpec `json:"filters,omitempty"`
 	Panics  bool    `json:"panics,omitempty"`
+	// Variant: the route is only eligible for requests whose X-Variant header has this value
+	// (two routes of a service may share method and path and differ in this condition only)
+	Variant string `json:"variant,omitempty"`
 }
 
 type c06Service struct {
@@ -44,8 +47,9 @@ type c06Service struct {
 }
 
 type c06Req struct {
-	Method string `json:"method"`
-	Path   string `json:"path"`
+	Method  string `json:"method"`
+	Path    string `json:"path"`
+	Variant string `json:"variant,omitempty"`
 }
 
 // C06Case is a configuration plus a request history.
@@ -60,6 +64,8 @@ type C06Case struct {
 		A, B, At int
 	} `json:"parked,omitempty"`
 	Workers int `json:"workers,omitempty"` // concurrent part: goroutines issuing the multiset
+	// Trace: 0 tracing off, 1 on, 2 on and then switched off with TraceLogger(nil)
+	Trace int `json:"trace,omitempty"`
 }
 
 var filterKinds = []string{"pass", "pass", "pass", "attr", "attr", "replace", "mw_r", "mw_w", "mw_rw", "mw_async", "stop", "panic"}
@@ -87,8 +93,14 @@ func genC06(t *rapid.T, concurrent bool) C06Case {
 		for r := 0; r < nr; r++ {
 			sv.Routes = append(sv.Routes, c06Route{Path: "/r" + strconv.Itoa(r), Filters: genFilters(t, "s"+strconv.Itoa(s)+"r"+strconv.Itoa(r)+"f", maxF), Panics: rapid.IntRange(0, 9).Draw(t, "handlerpanics") == 0})
 		}
+		if nr == 2 && rapid.IntRange(0, 2).Draw(t, "siblings") == 0 {
+			// same method, same path: only the condition tells the two routes (and their filters) apart
+			sv.Routes[1].Path = sv.Routes[0].Path
+			sv.Routes[0].Variant, sv.Routes[1].Variant = "a", "b"
+		}
 		c.Services = append(c.Services, sv)
 	}
+	c.Trace = rapid.SampledFrom([]int{0, 0, 0, 1, 2}).Draw(t, "trace")
 	// at most one asynchronous middleware per configuration (it returns before the rest of the
 	// chain has finished, like http.TimeoutHandler after its deadline)
 	seenAsync := false
@@ -120,15 +132,15 @@ func genC06(t *rapid.T, concurrent bool) C06Case {
 		rt := sv.Routes[rapid.IntRange(0, len(sv.Routes)-1).Draw(t, "route")]
 		switch x := rapid.IntRange(0, 9).Draw(t, "reqkind"); {
 		case x < 6:
-			q = c06Req{"GET", sv.Root + rt.Path}
+			q = c06Req{"GET", sv.Root + rt.Path, rt.Variant}
 		case x == 6:
-			q = c06Req{"GET", sv.Root + "/none"} // 404 inside a service
+			q = c06Req{"GET", sv.Root + "/none", ""} // 404 inside a service
 		case x == 7:
-			q = c06Req{"POST", sv.Root + rt.Path} // 405
+			q = c06Req{"POST", sv.Root + rt.Path, rt.Variant} // 405
 		case x == 8 && c.HWF:
-			q = c06Req{"GET", "/hwf/x"}
+			q = c06Req{"GET", "/hwf/x", ""}
 		default:
-			q = c06Req{"GET", sv.Root + rt.Path}
+			q = c06Req{"GET", sv.Root + rt.Path, rt.Variant}
 		}
 		c.Reqs = append(c.Reqs, q)
 	}
@@ -350,8 +362,11 @@ func checkC06(c C06Case, partName string) (vs []*Violation) {
 		}
 		for _, r := range s.Routes {
 			r := r
-			hid := "h:" + s.Root + r.Path
+			hid := "h:" + s.Root + r.Path + r.Variant
 			rb := ws.GET(r.Path)
+			if r.Variant != "" {
+				rb.If(func(hr *http.Request) bool { return hr.Header.Get("X-Variant") == r.Variant })
+			}
 			for _, f := range r.Filters {
 				rb.Filter(mkFilter(f))
 			}
@@ -400,7 +415,7 @@ func checkC06(c C06Case, partName string) (vs []*Violation) {
 		}
 		for _, s := range c.Services {
 			for _, r := range s.Routes {
-				if q.Path == s.Root+r.Path && q.Method == "GET" {
+				if q.Path == s.Root+r.Path && q.Method == "GET" && q.Variant == r.Variant {
 					if stopped {
 						return ids, "routed"
 					}
@@ -410,7 +425,7 @@ func checkC06(c C06Case, partName string) (vs []*Violation) {
 					if ids, stopped = cut(ids, r.Filters); stopped {
 						return ids, "routed"
 					}
-					return append(ids, "h:"+s.Root+r.Path), "routed"
+					return append(ids, "h:"+s.Root+r.Path+r.Variant), "routed"
 				}
 			}
 		}
@@ -424,6 +439,9 @@ func checkC06(c C06Case, partName string) (vs []*Violation) {
 		q := c.Reqs[i]
 		hr := harness.NewHTTPRequest(model.ReqSpec{Method: q.Method, Path: q.Path}, "")
 		hr.Header.Set(c06ReqHeader, strconv.Itoa(i)+suffix)
+		if q.Variant != "" {
+			hr.Header.Set("X-Variant", q.Variant)
+		}
 		w := httptest.NewRecorder()
 		defer func() {
 			panicked = recover()
@@ -445,7 +463,15 @@ func checkC06(c C06Case, partName string) (vs []*Violation) {
 		return nil
 	}
 
-	labels := []string{"via_" + c.Via}
+	labels := []string{"via_" + c.Via, "trace_" + strconv.Itoa(c.Trace)}
+	switch c.Trace {
+	case 1:
+		harness.SetTrace(true)
+	case 2:
+		harness.SetTrace(true)
+		harness.SetTraceOff(true)
+	}
+	defer harness.SetTrace(false)
 	nontrivial := false
 	var reqIDs []string // request ids in the log (index + suffix)
 	switch {
